@@ -187,6 +187,31 @@ func (f *c18filler) fill(v reflect.Value) {
 		} else {
 			v.Set(s)
 		}
+	case reflect.Map:
+		n := f.ch("maplen", 5)
+		if n == 0 || f.depth > 3 {
+			v.Set(reflect.Zero(t))
+			return
+		}
+		m := reflect.MakeMap(t)
+		f.depth++
+		for i := 0; i < n; i++ {
+			k := reflect.New(t.Key()).Elem()
+			f.fill(k)
+			// distinct small keys
+			switch k.Kind() {
+			case reflect.Uint8, reflect.Uint16, reflect.Uint32, reflect.Uint64, reflect.Uint:
+				k.SetUint(uint64(i + 1))
+			case reflect.Int8, reflect.Int16, reflect.Int32, reflect.Int64, reflect.Int:
+				k.SetInt(int64(i + 1))
+			}
+			e := reflect.New(t.Elem()).Elem()
+			f.fill(e)
+			m.SetMapIndex(k, e)
+		}
+		f.depth--
+		v.Set(m)
+		f.filled++
 	case reflect.Ptr:
 		if f.ch("ptrnil", 3) == 0 || f.depth > 4 {
 			v.Set(reflect.Zero(t))
@@ -339,6 +364,14 @@ func c18Change(v reflect.Value) func() {
 	return restore
 }
 
+// c18New: a fresh decode target of x's type (types whose zero value is not usable come from their constructor).
+func c18New(x interface{}) interface{} {
+	if _, ok := x.(*types.UpgradeVotes); ok {
+		return types.NewUpgradeVotes()
+	}
+	return reflect.New(reflect.TypeOf(x).Elem()).Interface()
+}
+
 func c18Encode(x interface{}) (b []byte, ok bool) {
 	defer func() {
 		if recover() != nil {
@@ -401,7 +434,18 @@ func c18RoundTrip(r *vfw.Run, x interface{}, what string) ([]byte, bool) {
 		r.Probe("value_not_encodable_skipped")
 		return nil, false
 	}
-	y := reflect.New(reflect.TypeOf(x).Elem()).Interface()
+	// the same value encodes to the same bytes on a replica whose maps iterate in another order
+	for _, seed := range []uint64{0x4242, 0x9191} {
+		ctx := *r.W.CurCtx()
+		ctx.MapSeed = seed
+		var bo []byte
+		var ok2 bool
+		r.W.As(&ctx, func() { bo, ok2 = c18Encode(x) })
+		if ok2 && !bytes.Equal(b1, bo) {
+			r.Violate("C18:encoding-depends-on-map-order", "%s: two encodings of the same value differ: %x vs %x", what, c18clip(b1), c18clip(bo))
+		}
+	}
+	y := c18New(x)
 	if err, panicked := c18Decode(y, b1); err != nil {
 		if panicked {
 			r.Violate("C18:own-encoding-panics-decoder", "%s: %v (encoding %x)", what, err, b1)
